@@ -219,11 +219,20 @@ impl AOut {
   }
 }
 
+// Writers 0,1 (2,3; ...) live in two different participants and share their EntityId; writers 0,2
+// (1,3; ...) share the participant and differ in the EntityId: whatever is keyed by only one half of
+// the GUID mixes up their fragments (seeded change C05-2A).
 fn writer_guid(w: usize) -> GUID {
+  let mut prefix = *b"verifC05wrt0";
+  prefix[11] = b'0' + (w % 2) as u8;
   GUID::new(
-    GuidPrefix::new(b"verifC05wrtr"),
-    EntityId::new([0, 0, w as u8], EntityKind::WRITER_WITH_KEY_USER_DEFINED),
+    GuidPrefix::new(&prefix),
+    EntityId::new([0, 0, (w / 2) as u8], EntityKind::WRITER_WITH_KEY_USER_DEFINED),
   )
+}
+
+fn writer_index(g: GUID) -> usize {
+  (0..256usize).find(|w| writer_guid(*w) == g).unwrap_or(999)
 }
 
 // ---------------------------------------------------------------------------------------------
@@ -517,9 +526,9 @@ impl ReaderRig {
   }
 
   /// Feeds one DATAFRAG; returns the cache changes that appeared (writer index, sn, bytes).
-  fn datafrag(&mut self, df: &DataFrag, flags: BitFlags<DATAFRAG_Flags>) -> Result<Vec<(usize, i64, Vec<u8>)>, ()> {
+  fn datafrag(&mut self, w: usize, df: &DataFrag, flags: BitFlags<DATAFRAG_Flags>) -> Result<Vec<(usize, i64, Vec<u8>)>, ()> {
     let mr_state = MessageReceiverState {
-      source_guid_prefix: writer_guid(0).prefix,
+      source_guid_prefix: writer_guid(w).prefix,
       ..Default::default()
     };
     let reader = &mut self.reader;
@@ -539,7 +548,7 @@ impl ReaderRig {
           }
           _ => vec![255, 255, 255, 255, 255],
         };
-        new.push((cc.writer_guid.entity_id.entity_key[2] as usize, key.1, bytes));
+        new.push((writer_index(cc.writer_guid), key.1, bytes));
       }
     }
     Ok(new)
@@ -810,7 +819,7 @@ fn run_case(case: &Case, rigs: &mut Rigs) -> (String, String, Vec<String>, bool)
           let wd = &ws[*w];
           let sp = &wd.samples.iter().find(|(s, _)| s == sn).unwrap().1;
           let r = match make_datafrag_via_wire(*w, *sn, sp, *k, wd.fs) {
-            Ok((df, flags)) => rr.datafrag(&df, flags),
+            Ok((df, flags)) => rr.datafrag(*w, &df, flags),
             Err(_) => Err(()),
           };
           match r {
